@@ -376,7 +376,9 @@ def main():
         replay_written = rp; exit_code = 1
 
     # 8: evidence
-    evaluations = sum(r["evaluations"] for r in reports)
+    # stream tie compares model and implementation on complete domains; its cases are not evaluations of this property's oracle
+    evaluations = sum(r["evaluations"] for r in reports if r.get("stream") != "tie")
+    tie_cases = sum(r["evaluations"] for r in reports if r.get("stream") == "tie")
     nontrivial = sum(r["distinct_nontrivial"] for r in reports)
     samples = [s for r in reports for s in r["samples"]][:6]
     dist = {}
@@ -392,7 +394,7 @@ def main():
             "theorems": theorems,
             "partial_theorems": [t["name"] for t in theorems if "_partial" in t["name"]],
             "partial_note": "theorems named *_partial are the strongest true restriction of a clause whose full-strength statement is false of the code; each comes with a proved counter-example (witness) in the same file and a known_findings.txt class",
-            "evaluations": evaluations, "distinct_nontrivial": nontrivial,
+            "evaluations": evaluations, "distinct_nontrivial": nontrivial, "complete_domain_cases_stream_tie": tie_cases,
             "rule": "evaluations = inputs/histories run against the real library by the property oracle; distinct_nontrivial = distinct cases (hashed) that exercise a non-default behaviour as defined per stream in harness/src/streams",
             "samples": samples if samples else [{"theorems": [t["name"] for t in theorems][:5]}],
             "traces_validated_against_impl": len(traces),
